@@ -1,6 +1,7 @@
 import CallbagModel.Insts
 import CallbagModel.Mon
 import Driver.ParDrv
+import Driver.IvlDrv
 /-!
 # cbdrv — the compiled driver (imports model files only)
 
@@ -126,4 +127,8 @@ def main (args : List String) : IO UInt32 := do
     IO.println s!"SUMMARY \{\"scripts\": {st.scripts}, \"nested\": {st.nested}, \"max_depth\": {st.maxDepth}, \"events\": {st.events}, \"mismatches\": {st.mismatches}, \"model_drift\": {st.fullMismatches}, \"flagged\": {st.flagged}, \"nonconformant\": {st.nonconf}, \"panics\": {st.panics}}"
     return 0
   | ["par"] => parLoop (← IO.getStdin); return 0
+  | ["ivl"] =>
+    let (n, bad, mism) ← ivlLoop (← IO.getStdin) 0 0 0
+    IO.println s!"SUMMARY \{\"scripts\": {n}, \"flagged\": {bad}, \"mismatches\": {mism}}"
+    return 0
   | _ => IO.eprintln "usage: cbdrv gen|rand|judge|par ..."; return 2
